@@ -49,6 +49,8 @@ PROBLEMS = {
     "infeascb": dict(n=1, x0=[0.5], bounds=[[1.0, 0.0]]),
     "allfixlin": dict(n=2, x0=[0.0, 0.0], bounds=[[1.0, 1.0], [2.0, 2.0]], lin=[([[1.0, 1.0]], [-INF], [2.0])]),
     "fixlin":  dict(n=2, x0=[0.5, 7.0], bounds=[[0.0, 2.0], [1.0, 1.0]], lin=[([[1.0, 1.0]], [-INF], [1.25])]),
+    "feaslin2": dict(n=1, x0=[0.5], bounds=None, lin=[([[1.0]], [1.7], [INF])], fun=False),
+    "tgtlin":  dict(n=1, x0=[0.5], bounds=None, lin=[([[1.0]], [1.7], [INF])]),
     "linnl":   dict(n=1, x0=[0.5], bounds=None, lin=[([[1.0]], [-INF], [0.25])], nl=[(1, [-INF], [0.0], "nlc")]),
 }
 
@@ -123,14 +125,16 @@ class Ctl(Harness):
             add("linub", 3, 1, cb="pos")
             add("lineq", 4, 1, npt=3)
             add("feaslin", 3, 1)
-            add("nlub", 3, 1, npt=2)
+            add("feaslin2", 5, 2)
+            add("tgtlin", 4, 1, target=True)
+            add("boxnls", 3, 1, npt=2, cb="pos")
             add("nlub", 2, 1, cb="pos", kinds="all", npt=2)
             add("nleq", 2, 1, target=True, npt=2)
             add("nl2", 2, 1, npt=2)
             add("feas", 3, 1, cb="pos", npt=2)
             add("dict", 2, 1, npt=2, cb="kw")
             add("fixnls", 2, 1, cb="kw", npt=2)
-            add("boxnls", 2, 1, npt=2, cb="pos")
+            add("nlub", 2, 1, npt=2)
             add("linnl", 2, 1, npt=2)
         else:
             for pb in PROBLEMS:
